@@ -13,15 +13,17 @@ RULE = ("one case = a deterministic, functional program recorded through a real 
         "inputs, resolvers, capture subsets, fallbacks, wrap data handlers, nested interceptions, try/except around recorded "
         "exceptions, values from the faithful domain (tuples, bytes, nested containers, objects, big ints); non-trivial = at "
         "least two interceptions; distinct = distinct (program, cassette)")
-ASSUMPTIONS = ["single-threaded operations (worker threads inside an operation are not modelled: the per-alias output counter is "
-               "a non-atomic read-modify-write, runtime behaviour no Gallina function exhibits)",
+ASSUMPTIONS = ["worker threads are modelled at start/join granularity (Spawn: a thread started and joined by the operation's own code); "
+               "true concurrency is not (the per-alias output counter is a non-atomic read-modify-write, runtime behaviour no "
+               "Gallina function exhibits); the Coq theorems are stated for thread-free programs, threaded programs are covered "
+               "by the correspondence and the direct predicate",
                "inputs are functions of alias and captured arguments (generated programs are functional by construction)",
                "values are tree-shaped; a value referenced twice inside one recording together with an earlier plain object "
                "holding a list/dict hits the serializer's py/id defect (known finding F07c) and is kept out of the main stream"]
 THEOREMS = ["C01_nested_not_intercepted", "C01_simulation", "C01_replay_reproduces", "C01_replay_reproduces_run",
             "C01_nonfunctional_refuted"]
 
-W = dict(rd.DEFAULT_W, fault=0.0, unser=0.0, discard=0.0, force=0.3, interrupt=0.0, raise_=0.2, enable=0.0, prep_discards=0.0,
+W = dict(rd.DEFAULT_W, spawn=0.6, spawn_in_body=False, fault=0.0, unser=0.0, discard=0.0, force=0.3, interrupt=0.0, raise_=0.2, enable=0.0, prep_discards=0.0,
          playdata=0.0, recdata=0.4, missing_opts=0.1, fallbacks=0.2, handler=0.25, nested=0.3)
 PRM = dict(rate=[1, 1], ignore=False, skipped=False, copy=False)
 
@@ -64,6 +66,9 @@ def functionalise(rng, body, table):
                 for x in top(c["h"]):
                     yield x
                 return
+            if c["k"] == "spawn":
+                for x in top(c["c"]):     # a worker thread's calls are intercepted like the operation's own
+                    yield x
             if "next" not in c:
                 return
             c = c["next"]
@@ -134,6 +139,34 @@ def type_twins(rng):
     return dict(cls="OpA", classlevel=False, extractor={"kind": "none"}, body=c)
 
 
+def threaded_outputs(rng):
+    """The operation thread and worker threads (started and joined one after another) call the SAME output alias."""
+    def out(i):
+        return {"k": "out", "cfg": dict(alias="send", static=rng.random() < 0.5, handler="none", fail=True, default=pv.none()),
+                "body": {"k": "ret", "e": {"lit": pv.i(100 + i)}}, "args": [{"lit": pv.i(i)}], "kwargs": []}
+    i = 0
+    stmts = []
+    for _ in range(rng.randrange(2, 5)):
+        if rng.random() < 0.5:
+            stmts.append(out(i))
+            i += 1
+        else:
+            c = {"k": "ret", "e": {"lit": pv.none()}}
+            for _ in range(rng.randrange(1, 3)):
+                o = out(i)
+                i += 1
+                o["next"] = c
+                c = o
+            stmts.append({"k": "spawn", "c": c})
+    stmts.append(out(i))
+    c = {"k": "ret", "e": {"var": 0}}
+    for st in reversed(stmts):
+        st = dict(st)
+        st["next"] = c
+        c = st
+    return dict(cls="OpA", classlevel=False, extractor={"kind": "none"}, body=c)
+
+
 def generate(rng, tier):
     cases = []
     n = 200 if tier == "quick" else 3000
@@ -142,6 +175,8 @@ def generate(rng, tier):
             op = many_outputs(rng)
         elif i % 10 == 3:
             op = type_twins(rng)
+        elif i % 10 == 5:
+            op = threaded_outputs(rng)
         else:
             op = rd.rand_opdef(rng, W, budget=rng.choice([5, 9, 14]), cls=rng.choice(["OpA", "OpB"]))
             table = {}
@@ -189,6 +224,11 @@ def direct(case, obs):
     saved = [c for c in rec_ob["cass"] if c["c"] == "save"]
     if not saved or rec_ob["outcome"]["o"] == "int":
         return fails
+    if case.get("probe") == "F01-thread-inside-interception":
+        d = [ob for run, ob in zip(case["runs"], obs["runs"]) if run["kind"] == "play" and
+             canon_rec(ob["pbouts"]) != canon_rec(ob["recouts"])]
+        return [("F01-thread-inside-interception", "outputs sent by a worker thread started inside an intercepted body were "
+                 "recorded but are not reproduced by the replay")] if d else []
     if saved[0].get("fetch_ok") is False:
         # the cassette did not hand back what was saved: the serializer's py/id defect (a value referenced twice inside one
         # recording, e.g. an exception recorded by an interception and again as the operation's outcome, after a plain
